@@ -207,7 +207,8 @@ def main(argv=None):
     t0 = time.time()
     from vmon.worker import load_monitor
     mod = load_monitor(prop)
-    specs = mod.cases(seed, args.tier)
+    from vmon.core import all_cases
+    specs = all_cases(mod, seed, args.tier)
     os.makedirs(os.path.join(EVID, 'tmp'), exist_ok=True)
     results, problems, nshards = run_workers(prop, args.tier, seed, args.jobs, len(specs))
     agg = aggregate(results)
